@@ -145,6 +145,19 @@ func c10Gate(c *Check) {
 			}
 		}
 		c.Result(okLit, "C10.G", "neutralised conf-change proposal", fnName(stepLeader), p.site(st), "replaced by an entry with only Type: EntryNormal (no payload)", detail)
+		// only an entry that is itself a configuration change is ever neutralised
+		if ia, ok := st.Addr.(*ssa.IndexAddr); ok {
+			getTypeE := p.Method("raftpb", "Entry", "GetType")
+			elem := &Sym{K: KIndex, Args: []*Sym{fi.Sym(ia.X), fi.Sym(ia.Index)}}
+			et := CallSym(getTypeE, elem)
+			specT := bfOr(bfCmp(et, "==", constSym(p.ConstVal("raftpb", "EntryConfChange"))), bfCmp(et, "==", constSym(p.ConstVal("raftpb", "EntryConfChangeV2"))))
+			okT, undT, detT := fi.pathsImplyOpt(st, -1, specT, true)
+			if undT {
+				c.Undecided("C10.G", "only conf-change entries are neutralised", fnName(stepLeader), p.site(st), "m.Entries[i].Type is EntryConfChange or EntryConfChangeV2 on every path to the rewrite", detT)
+			} else {
+				c.Result(okT, "C10.G", "only conf-change entries are neutralised", fnName(stepLeader), p.site(st), "m.Entries[i].Type is EntryConfChange or EntryConfChangeV2 on every path to the rewrite (ordinary proposals in the same batch keep their payload)", detT)
+			}
+		}
 		// and only on the rejecting path: failed check and validation enabled
 		if leave != nil {
 			failed := bfOr(pending, bfAnd(joint, bfNot(leave)), bfAnd(bfNot(joint), leave))
